@@ -82,6 +82,8 @@ def poll_leaf(ip, loc, leaf):
         raise PanicPath('panic', 'leaf future %s polled after completion' % k)
     if k == 'mpsc.send':
         sender, req = leaf.data
+        from t4 import sched_point
+        yield from sched_point(ip, 'mailbox send ' + sender.kind)
         if may_pend(ip, 'mpsc.send'):
             return PENDING
         write_loc(loc, Leaf(k, leaf.data, True))
@@ -116,6 +118,11 @@ def poll_leaf(ip, loc, leaf):
             return ready(UNIT)
         return PENDING
     if k in ('sleep', 'notified', 'deleted', 'generic'):
+        if k == 'sleep' and getattr(p, 'timers_never_fire', False):
+            return PENDING
+        if k == 'deleted' and getattr(p, 'deleted_signal', None) is not None:
+            if not p.deleted_signal():
+                return PENDING
         if may_pend(ip, k):
             return PENDING
         write_loc(loc, Leaf(k, leaf.data, True))
